@@ -3,11 +3,19 @@
 Stage A: Concurrency.tla - N callers x programs, call/return as separate steps, every interleaving for 3 callers x 3 calls:
 GlobalsNeverWritten, ResultsSequential, AllFinish; the deliberately broken library variant (argument parked in a package
 level cell) must VIOLATE ResultsSequential (shows the property discriminates).
-Binding: the family drivers are rebuilt with the race detector and run the same TLC-generated cases from 2..64 goroutines
-(GOMAXPROCS 1, 2, 16; seeded start offsets and yields) on per-goroutine values plus shared, read-only decoded messages;
-each goroutine writes its own trace, and every trace is validated by TLC against the same sequential operators as the
-sequential checks (a result that depends on another goroutine's activity is a mismatch); race reports with a frame in
-the library are violations."""
+Binding: race-detector builds run TLC-generated cases from 2..64 goroutines (GOMAXPROCS 1, 2, 16; seeded start offsets and
+yields) on per-goroutine values; each goroutine keeps its own trace, and every trace is validated by TLC against the same
+sequential operators as the sequential checks (a result that depends on another goroutine's activity is a mismatch); race
+reports with a frame in the library are violations.
+ * message codec: harness/cmd/codec runpar (plus shared, read-only decoded messages), judged by Trace_C19;
+ * every other family - conversions (C17), identities (C12), slice / area lists (C13), QoS rules and flow descriptions (C15),
+   PCO / PSI (C16), UE policy container (C18), ciphering / MAC (C06, C07), IE field accessors (C09): harness/cmd/conc runs
+   the families' own case formats (their own TLC generator configurations, plus cases taken from the traces their drivers
+   record) through copies of their per-operation functions (tools/conc_sync.py; a drift guard compares the copies with the
+   family drivers event by event) and each goroutine's trace is judged by the family's own trace specification.
+   Schedules: aligned (all goroutines in the same operation kind at the same time, different argument values), staggered,
+   alternating.  A mismatch counts only if the same cases, run single-threaded in a fresh process in that goroutine's exact
+   order, do not produce the same event (otherwise it is the family's own finding)."""
 import copy, json, os, random, re, sys, time
 from concurrent.futures import ThreadPoolExecutor
 sys.path.insert(0, os.path.dirname(os.path.abspath(__file__)))
@@ -16,13 +24,16 @@ import c19fam
 
 META = dict(
     property_id="C19", engine="tlc-concurrency",
-    technique="TLC explores all interleavings of the caller model (and shows the broken variant fails); race-detector builds of the drivers run TLC-generated cases from up to 64 goroutines and every per-goroutine trace is validated by TLC against the sequential specification",
+    technique="TLC explores all interleavings of the caller model (and shows the broken variant fails); race-detector builds of the drivers run TLC-generated cases of every family (codec, conversions, identities, lists, QoS, PCO/PSI, UE policy, ciphering/MAC, IE accessors) from up to 64 goroutines and every per-goroutine trace is validated by TLC against the family's sequential specification",
     level=("exploration", "Schedules of the real code are sampled (goroutine counts, GOMAXPROCS, seeded offsets and yields), not enumerated: the Go scheduler is not controllable below call granularity. The race detector's happens-before analysis flags an unsynchronised shared access without needing the unlucky interleaving, and TLC judges every result of every goroutine against the sequential value.", "7/C19"),
-    level_note="Trusted: the Go race detector, TLC. Model-level exhaustiveness (all interleavings, 3 callers x 3 calls) is about the abstract caller model only. Hidden shared state that is properly synchronised and never influences a result is not observable.",
+    level_note="Trusted: the Go race detector, TLC. Model-level exhaustiveness (all interleavings, 3 callers x 3 calls) is about the abstract caller model only. Hidden shared state that is properly synchronised and never influences a result is not observable. The race detector only sees accesses the harness does not itself order: the concurrent driver keeps mutexes, helper goroutines, encoding/json, fmt and reflect look-ups out of the phase in which the goroutines call the library; synchronisation the library itself performs on a path (logging, fmt, sync.Pool) can still hide an unsynchronised access next to it. Every operation kind of every family runs in every configuration; every IE accessor pair runs in the two-goroutine configuration, a seeded sample in the others. Stateful objects (NAS COUNT, identifier allocator, growing UE-policy objects) are outside: the property is about independent values.",
 )
 
 CONFIGS_Q = [(2, 16, 8), (8, 2, 2), (64, 16, 1), (16, 1, 1)]       # (goroutines, GOMAXPROCS, rounds)
 BATCH = 150000        # events validated (and then dropped) at a time
+# race reports go to files; a longer per-goroutine access history keeps the "previous access" of a report restorable when the
+# two accesses are far apart (the runtime drops a report whose previous stack it cannot restore)
+GORACE = "halt_on_error=0 exitcode=0 history_size=5 log_path=%s/race"
 CONFIGS_T = [(2, 16, 30), (3, 2, 20), (8, 2, 10), (64, 16, 4), (16, 1, 6), (32, 4, 6)]
 
 
@@ -50,9 +61,9 @@ def family_codec(c, thorough):
     gen = mc_codec(c, 1, shards=3, liveness=False)
     drv = c.build_driver("codec", race=True)
     pool = [g for g in gen if TBL[g["m"]]["family"] != "ENV"]
-    cases = [dict(k="dec", entry="plain", inp=g["inp"]) for g in rng.sample(pool, min(len(pool), 350 if not thorough else 2500))]
+    cases = [dict(k="dec", entry="plain", inp=g["inp"]) for g in rng.sample(pool, min(len(pool), 350 if not thorough else 2000))]
     wants = [(g["m"], g["w"]) for g in pool if g["g"]]
-    cases += [dict(k="rt", m=m, mand=w["mand"], opt=w["opt"], via="plain") for m, w in rng.sample(wants, min(len(wants), 150 if not thorough else 900))]
+    cases += [dict(k="rt", m=m, mand=w["mand"], opt=w["opt"], via="plain") for m, w in rng.sample(wants, min(len(wants), 150 if not thorough else 700))]
     rng.shuffle(cases)
     cp = os.path.join(c.scratch, "c19-codec-cases.ndjson")
     with open(cp, "w") as f:
@@ -77,7 +88,7 @@ def family_codec(c, thorough):
         tag = "codec-%d-%d" % (n, procs)
         logdir = c.sub("race-" + tag)
         prefix = os.path.join(logdir, "g")
-        env = dict(GOMAXPROCS=str(procs), GORACE="halt_on_error=0 exitcode=0 log_path=%s/race" % logdir)
+        env = dict(GOMAXPROCS=str(procs), GORACE=GORACE % logdir)
         c.run_driver(drv, ["runpar", cp, prefix, n, rounds], env=env, timeout=2400)
         lib, other = race_reports(logdir)
         if other:
@@ -164,7 +175,7 @@ def run_seq(c, drv, f, cases_path, order, tag):
     k = len(os.listdir(d))
     op = os.path.join(d, "%s-%d.idx" % (tag, k)); out = os.path.join(d, "%s-%d.ndjson" % (tag, k))
     open(op, "w").write("".join("%d\n" % i for i in order))
-    c.run_driver(drv, ["runseq", f.name, cases_path, op, out], env=dict(GOMAXPROCS="1", GORACE="halt_on_error=0 exitcode=0 log_path=%s/race" % d), timeout=900)
+    c.run_driver(drv, ["runseq", f.name, cases_path, op, out], env=dict(GOMAXPROCS="1", GORACE=GORACE % d), timeout=300)
     return read_ndjson(out)
 
 
@@ -196,8 +207,23 @@ def run_conc(c, drv, fams, plans, n, procs, rounds, tag):
         paths[f.name] = cp
         man["families"].append(dict(name=f.name, cases=cp, blocks=blocks))
     mp = os.path.join(d, "manifest.json"); json.dump(man, open(mp, "w"))
-    env = dict(GOMAXPROCS=str(procs), GORACE="halt_on_error=0 exitcode=0 log_path=%s/race" % d)
-    c.run_driver(drv, ["runpar", mp, os.path.join(d, "g"), n, rounds, mode_of(n, rounds)], env=env, timeout=2400)
+    env = dict(GOMAXPROCS=str(procs), GORACE=GORACE % d)
+    r = c.run_driver(drv, ["runpar", mp, os.path.join(d, "g"), n, rounds, mode_of(n, rounds)], env=env, timeout=2400, check=False)
+    if r.returncode == 4 and os.path.exists(os.path.join(d, "g.hang")):
+        # the driver's monitor: a case did not return for 30 s.  Sequentially (fresh process, one goroutine) it must return.
+        h = json.load(open(os.path.join(d, "g.hang")))
+        f = [x for x in fams if x.name == h["family"]][0]
+        case = json.load(open(paths[f.name]))[h["case"]]
+        try:
+            run_seq(c, drv, f, paths[f.name], [h["case"]], tag + "-hang")
+        except Infra:
+            raise Infra("%s: case %d does not return within the time limit even single-threaded (the finding of %s; it must not be in the concurrent case list): %s" % (
+                f.name, h["case"], f.pid, json.dumps(case)[:300]))
+        c.report("concurrent-%s-no-return" % f.pid, "hang", "%s: a call did not return for %d s in goroutine %d of %d (GOMAXPROCS=%d); the same case returns when run single-threaded in a fresh process" % (
+            f.name, h["seconds"], h["goroutine"], n, procs), dict(config=dict(goroutines=n, gomaxprocs=procs, rounds=rounds, family=f.name), case=case))
+        return None, race_reports(d)[0], man, paths
+    if r.returncode != 0:
+        raise Infra("driver failed rc=%d: conc runpar %s\n%s" % (r.returncode, tag, (r.stderr or "")[-3000:]))
     lib, other = race_reports(d)
     if other:
         raise Infra("race reported in harness code only (%d reports) - harness bug" % other)
@@ -303,6 +329,9 @@ def family_others(c, thorough, fams, pools, drv):
         cfg = dict(goroutines=n, gomaxprocs=procs, rounds=rounds, schedule=mode_of(n, rounds))
         for blk in lib:
             races.setdefault(race_fn(blk), (cfg, blk))
+        if traces is None:           # a call did not return (reported): this configuration has no traces
+            if ci == len(configs) - 1: flush(pending)
+            continue
         for f in fams:
             acc = pending[f.name]
             for g, evs, order in traces[f.name]:
@@ -311,6 +340,19 @@ def family_others(c, thorough, fams, pools, drv):
                 acc["origin"] += [(tag, g, i) for i in range(len(evs))]
                 npend += len(evs)
                 c.count_distinct((f.name, tag, g))
+        if "binding_selftest_conc" not in c.cov:
+            # one logged field of a recorded concurrent trace corrupted: TLC must reject exactly that event
+            f17 = [f for f in fams if f.name == "f17"]
+            line = next((ln for g, evs, _ in (traces["f17"] if f17 else []) for ln in evs if ln.startswith('{"op":"UTDec"') and '"pan":""' in ln), None)
+            if line is None:
+                c.cov["binding_selftest_conc"] = "skipped: no UTDec event of family f17 in the first configuration"
+            else:
+                e = json.loads(line); e["st"][6] += 900
+                cc = copy.copy(c); cc.cov = dict(states=0, transitions=0, traces_validated_against_impl=0)
+                got = [(i, t[2]) for i, t in cc.validate("Trace_C17", [line, json.dumps(e, separators=(",", ":"))], shards=1)]
+                if got != [(1, "UTDec")]:
+                    raise Infra("binding self-test failed: a corrupted zone offset in a recorded concurrent UTDec event was judged %r by Trace_C17" % (got,))
+                c.cov["binding_selftest_conc"] = "zone offset of a recorded concurrent UTDec event (family f17, goroutine trace of configuration %s) moved by a quarter of an hour: Trace_C17 rejects that event and accepts the original" % tag
         c.sample(dict(config="conc-" + tag, schedule=cfg["schedule"], goroutine_traces={f.name: len(traces[f.name]) for f in fams},
                       blocks={x["name"]: len(x["blocks"]) for x in man["families"]}))
         del traces
